@@ -1127,3 +1127,786 @@ def bounded_dataset_derivations_replay(rp):
         if fn == c['fn'] and clause == c['clause']:
             return (False, detail)
     return (True, 'ok')
+
+
+# ======================================================================================
+# Part 2: dataset reading (C13)
+# ======================================================================================
+#
+# The reference below is written from /repo/docs/NONMEM.rst ("NM-TRAN dataset parsing",
+# "Comment lines", "NULL items in datasets", "IGNORE/ACCEPT"):
+#   - delimiter between items is comma, space or TAB; spaces around a comma and after a TAB are
+#     ignored; a space before a TAB is an error; spaces at the beginning/end of a row are ignored
+#   - a comma at the end or beginning of a row inserts a NULL; an item between two commas or two
+#     TABs is NULL; a "." is NULL; NULL becomes the NULL= value (default 0)
+#   - numbers: digits with optional sign and decimal point, E/e/D/d exponent, the short form
+#     2-1 == 2e-1 and 2+1 == 2e1, a lone + or - is 0; an item is at most 24 characters
+#   - DROPped columns may contain anything of any length; surplus columns are dropped, short
+#     rows are padded with NULL
+#   - empty lines (only spaces and TABs) are an error
+#   - comment lines: default ^#, IGNORE=c -> ^c, IGNORE=@ -> ^\s*[a-zA-Z#]
+#   - IGNORE/ACCEPT are applied one at a time in the order given, before the items are checked;
+#     .EQ./.NE. (== = /=) compare text, .EQN. .NEN. .LT. .GT. .LE. .GE. (< > <= >=) numbers
+
+PARSING_PY = 'src/pharmpy/model/external/nonmem/parsing.py'
+
+_REF_NUM = re.compile(r'([+-]?)(\d+\.?\d*|\.\d+)(?:[eEdD]([+-]?\d+)|([+-]\d+))?')
+
+
+class _RefError(Exception):
+    """The documented outcome is an error (DatasetError / ValueError)"""
+
+
+def _ref_fortran(s):
+    if s in ('+', '-'):
+        return 0.0
+    m = _REF_NUM.fullmatch(s)
+    if not m:
+        raise _RefError(f'{s!r} is not a number')
+    exp = m.group(3) or m.group(4) or '0'
+    return float(f'{m.group(1)}{m.group(2)}e{exp}')
+
+
+def _ref_split(line):
+    """Items of one data line; '' stands for an empty (NULL) item"""
+    if ' \t' in line:
+        raise _RefError('space before TAB')
+    s = line.strip(' ')
+    tokens = []
+    cur = ''
+    i = 0
+    n = len(s)
+    while i < n:
+        c = s[i]
+        if c == ',' or c == '\t':
+            tokens.append(cur)
+            cur = ''
+            i += 1
+            while i < n and s[i] == ' ':
+                i += 1
+        elif c == ' ':
+            j = i
+            while j < n and s[j] == ' ':
+                j += 1
+            if j < n and s[j] == ',':
+                i = j  # spaces before a comma are ignored
+            else:
+                tokens.append(cur)
+                cur = ''
+                i = j
+        else:
+            cur += c
+            i += 1
+    tokens.append(cur)
+    return tokens
+
+
+_REF_FILTER = re.compile(
+    r'\s*(\w+)\s*(\.EQN\.|\.NEN\.|\.EQ\.|\.NE\.|\.LT\.|\.GT\.|\.LE\.|\.GE\.|==|=|/=|<=|>=|<|>)'
+    r'\s*(.+?)\s*'
+)
+_TEXT_OPS = {'.EQ.': 'eq', '==': 'eq', '=': 'eq', '.NE.': 'ne', '/=': 'ne'}
+_NUM_OPS = {'.EQN.': 'eq', '.NEN.': 'ne', '.LT.': 'lt', '<': 'lt', '.GT.': 'gt', '>': 'gt',
+            '.LE.': 'le', '<=': 'le', '.GE.': 'ge', '>=': 'ge'}
+
+
+def _ref_condition(flt, colnames, null_value):
+    m = _REF_FILTER.fullmatch(flt)
+    if not m:
+        raise AssertionError(f'reference cannot parse filter {flt!r}')
+    col, op, val = m.group(1), m.group(2), m.group(3)
+    if len(val) >= 2 and val[0] == val[-1] and val[0] in '\'"':
+        val = val[1:-1]
+    k = colnames.index(col)
+
+    def cmp(a, b, rel):
+        return {'eq': a == b, 'ne': a != b, 'lt': a < b, 'gt': a > b, 'le': a <= b,
+                'ge': a >= b}[rel]
+
+    if op in _TEXT_OPS:
+        return lambda row: cmp(row[k], val, _TEXT_OPS[op])
+    num = float(val)
+
+    def cond(row):
+        item = row[k]
+        if item in ('', '.'):
+            item = null_value
+        return cmp(_ref_fortran(item), num, _NUM_OPS[op])
+
+    return cond
+
+
+def _ref_read(spec):
+    """Reference reader: ('error', why) | ('skip', why) | ('ok', rows)
+    rows: list of lists; float for a parsed column, raw item (str) for a dropped column"""
+    text = spec['text']
+    colnames = spec['colnames']
+    drop = spec.get('drop') or [False] * len(colnames)
+    null_value = spec.get('null_value')
+    null_value = '0' if null_value is None else str(null_value)
+    ic = spec.get('ignore_character') or '#'
+    lines = text.split('\n')
+    if lines and lines[-1] == '':
+        lines = lines[:-1]
+    kept = []
+    for ln in lines:
+        if ic == '@':
+            comment = re.match(r'\s*[a-zA-Z#]', ln) is not None
+        else:
+            comment = ln.startswith(ic)
+        if not comment:
+            kept.append(ln)
+    if not kept:
+        return ('skip', 'no data record')
+    try:
+        for ln in kept:
+            if ' \t' in ln:
+                raise _RefError('space before TAB')
+            if ln.strip(' \t') == '':
+                raise _RefError('blank line')
+        m = len(colnames)
+        rows = []
+        for ln in kept:
+            items = _ref_split(ln)
+            rows.append((items + [''] * (m - len(items)))[:m])
+        for kind in ('ignore', 'accept'):
+            for flt in spec.get(kind) or []:
+                cond = _ref_condition(flt, colnames, null_value)
+                if kind == 'ignore':
+                    rows = [r for r in rows if not cond(r)]
+                else:
+                    rows = [r for r in rows if cond(r)]
+        out = []
+        for r in rows:
+            o = []
+            for item, dropped in zip(r, drop):
+                if dropped:
+                    o.append(item)
+                    continue
+                if item in ('', '.'):
+                    item = null_value
+                if len(item) > 24:
+                    raise _RefError('item longer than 24 characters')
+                o.append(_ref_fortran(item))
+            out.append(o)
+    except _RefError as e:
+        return ('error', str(e))
+    return ('ok', out)
+
+
+def _real_read(spec):
+    """('error', exception) | ('ok', DataFrame)"""
+    import io
+
+    from pharmpy.model.external.nonmem.dataset import read_nonmem_dataset
+
+    kwargs = {}
+    if spec.get('null_value') is not None:
+        kwargs['null_value'] = spec['null_value']
+    if spec.get('ignore_character') is not None:
+        kwargs['ignore_character'] = spec['ignore_character']
+    if spec.get('drop') is not None:
+        kwargs['drop'] = list(spec['drop'])
+    if spec.get('ignore'):
+        kwargs['ignore'] = list(spec['ignore'])
+    if spec.get('accept'):
+        kwargs['accept'] = list(spec['accept'])
+    try:
+        df = read_nonmem_dataset(io.StringIO(spec['text']), colnames=list(spec['colnames']),
+                                 **kwargs)
+    except Exception as e:  # noqa: BLE001
+        return ('error', e)
+    return ('ok', df)
+
+
+_READ_CLAUSES = {
+    'tok': 'the rows are split into items by the documented delimiter rules, NULL items become '
+           'the NULL value, short rows are padded and surplus items dropped',
+    'comment': 'comment lines are removed by the documented IGNORE=c rule and blank lines are an '
+               'error',
+    'drop': 'dropped columns may contain anything, other items are numbers of at most 24 '
+            'characters',
+    'filter': 'IGNORE/ACCEPT filters are applied in order with text or numeric comparison as the '
+              'operator dictates',
+}
+
+
+def _compare_table(df, spec, rows):
+    colnames = spec['colnames']
+    drop = spec.get('drop') or [False] * len(colnames)
+    if not isinstance(df, pd.DataFrame):
+        return f'not a DataFrame: {df!r}'
+    if list(df.columns) != list(colnames):
+        return f'columns {list(df.columns)} expected {list(colnames)}'
+    if len(df) != len(rows):
+        return f'{len(df)} rows expected {len(rows)}: {df.values.tolist()} expected {rows}'
+    if list(df.index) != list(range(len(rows))):
+        return f'index {list(df.index)}'
+    for k, (c, dropped) in enumerate(zip(colnames, drop)):
+        got = df[c].tolist()
+        exp = [r[k] for r in rows]
+        if dropped:
+            for g, e in zip(got, exp):
+                if e not in ('', '.') and str(g) != e:
+                    return f'dropped column {c}: {got} expected {exp}'
+        else:
+            try:
+                g = [float(x) for x in got]
+            except (TypeError, ValueError):
+                return f'column {c} is not numeric: {got}'
+            if g != exp:
+                return f'column {c}: {g} expected {exp}; table {df.values.tolist()} expected {rows}'
+    return None
+
+
+def _read_case(spec):
+    """One read_nonmem_dataset case -> list of (fid, clause, detail)"""
+    from pharmpy.model import DatasetError
+
+    ref = _ref_read(spec)
+    if ref[0] == 'skip':
+        return None
+    fid = f'{DATASET_PY}:read_nonmem_dataset'
+    clause = _READ_CLAUSES[spec['fam']]
+    real = _real_read(spec)
+    shown = {k: v for k, v in spec.items() if k != 'fam' and v is not None}
+    if real[0] == 'error':
+        e = real[1]
+        if ref[0] == 'error':
+            if isinstance(e, DatasetError):
+                return []
+            return [(fid, f'no internal error (only DatasetError) [{type(e).__name__}]',
+                     f'{type(e).__name__}: {e} (documented outcome: DatasetError, {ref[1]}) for '
+                     f'{shown}')]
+        if isinstance(e, DatasetError):
+            return [(fid, clause, f'DatasetError: {e}; expected table {ref[1]} for {shown}')]
+        return [(fid, f'no internal error (only DatasetError) [{type(e).__name__}]',
+                 f'{type(e).__name__}: {e}; expected table {ref[1]} for {shown}')]
+    if ref[0] == 'error':
+        return [(fid, clause + ' (documented error is raised)',
+                 f'read {real[1].values.tolist()} but the documented outcome is an error '
+                 f'({ref[1]}) for {shown}')]
+    why = _compare_table(real[1], spec, ref[1])
+    if why:
+        return [(fid, clause, f'{why} for {shown}')]
+    return []
+
+
+# ---- enumeration of the reading cases --------------------------------------------------
+
+_SEPS = [',', ' ', '\t', ' ,', ', ', ' , ', '  ', '\t ']
+
+
+def _row_text(pattern, seps, lead, trail, rowno):
+    """pattern: tuple over {'V','D','.',''}; V -> integer unique for (row, position),
+    D -> decimal unique for (row, position)"""
+    items = []
+    for pos, p in enumerate(pattern):
+        if p == 'V':
+            items.append(str(10 * rowno + pos + 1))
+        elif p == 'D':
+            items.append(f'{10 * rowno + pos + 1}.5')
+        else:
+            items.append(p)
+    s = items[0]
+    for sep, it in zip(seps, items[1:]):
+        s += sep + it
+    return lead + s + trail
+
+
+def _documented_row(text):
+    """Rows whose meaning docs/NONMEM.rst defines: not blank, no TAB at the very beginning or
+    end (a NULL is documented for a leading/trailing comma and between two TABs only)"""
+    core = text.strip(' ')
+    if core == '' or core.strip('\t ') == '':
+        return False
+    if core[0] == '\t' or core[-1] == '\t':
+        return False
+    return True
+
+
+def _enumerate_reading(tier):
+    thorough = tier == 'thorough'
+    # --- tok: one row, <=3 items, every separator form per gap, optional leading/trailing space
+    pads = [('', ''), (' ', ''), ('', ' ')]
+    seen = set()
+    for k in (1, 2, 3):
+        for pattern in itertools.product(('V', 'D', '.', ''), repeat=k):
+            for seps in itertools.product(_SEPS, repeat=k - 1):
+                for lead, trail in pads:
+                    text = _row_text(pattern, seps, lead, trail, 0)
+                    if not _documented_row(text):
+                        continue
+                    for m in (2, 3):
+                        nulls = (None, '7', '-') if k <= 2 else (None,)
+                        for nv in nulls:
+                            key = (text, m, nv)
+                            if key in seen:
+                                continue
+                            seen.add(key)
+                            yield {'fam': 'tok', 'text': text + '\n',
+                                   'colnames': ['A', 'B', 'C'][:m], 'null_value': nv}
+    # --- tok: two rows (also of different length), one separator form per row
+    alphabet = ('V', '.', '') if thorough else ('V', '.')
+    seps2 = _SEPS if thorough else [',', ' ', '\t']
+    rows = []
+    for k in (1, 2, 3):
+        for pattern in itertools.product(alphabet, repeat=k):
+            for sep in (seps2 if k > 1 else [',']):
+                rows.append((pattern, (sep,) * (k - 1)))
+    for (p1, s1) in rows:
+        for (p2, s2) in rows:
+            t1 = _row_text(p1, s1, '', '', 0)
+            t2 = _row_text(p2, s2, '', '', 1)
+            if not (_documented_row(t1) and _documented_row(t2)):
+                continue
+            for m in (1, 2, 3):
+                for nv in (None, '7'):
+                    key = (t1 + '\n' + t2, m, nv)
+                    if key in seen:
+                        continue
+                    seen.add(key)
+                    yield {'fam': 'tok', 'text': t1 + '\n' + t2 + '\n',
+                           'colnames': ['A', 'B', 'C'][:m], 'null_value': nv}
+    # --- comment: comment / header / blank lines, every IGNORE=c form, last line with and
+    #     without newline
+    lines = ['1,2', '#3,4', 'A,4', ' B,4', 'I3,4', ' #3,4', '', '  ']
+    for k in (1, 2, 3):
+        for ls in itertools.product(lines, repeat=k):
+            for ic in (None, '#', 'I', '@'):
+                for final_newline in (True, False):
+                    text = '\n'.join(ls) + ('\n' if final_newline else '')
+                    if not final_newline and ls[-1] == '':
+                        continue  # same text as the file with one line less
+                    yield {'fam': 'comment', 'text': text, 'colnames': ['A', 'B'],
+                           'ignore_character': ic}
+    # --- drop: text and over-long items in dropped and non-dropped columns
+    items = ['1', 'X', '1' * 25, '0' * 23 + '1', '.']
+    for m in (2, 3):
+        for its in itertools.product(items, repeat=m):
+            for drop in itertools.product((False, True), repeat=m):
+                yield {'fam': 'drop', 'text': ','.join(its) + '\n',
+                       'colnames': ['A', 'B', 'C'][:m], 'drop': list(drop)}
+    # --- filter: one IGNORE / ACCEPT of every operator, text vs. numeric comparison
+    avals = ['1', '2', '1.0', '1+0', 'X']
+    ops = ['.EQ.', '==', '=', '.NE.', '/=', '.EQN.', '.NEN.', '.LT.', '<', '.GT.', '>', '.LE.',
+           '<=', '.GE.', '>=']
+    for a1 in avals:
+        for a2 in avals:
+            text = f'{a1},11\n{a2},12\n'
+            for op in ops:
+                for val in ('1', '2', "'1'", '"1"'):
+                    for sp in ('', ' '):
+                        flt = f'A{sp}{op}{sp}{val}'
+                        for kind in ('ignore', 'accept'):
+                            yield {'fam': 'filter', 'text': text, 'colnames': ['A', 'B'],
+                                   kind: [flt]}
+            # two IGNOREs in order: a text filter removes the row a numeric one could not parse
+            for first in ('A.EQ.X', 'A.NE.1', 'B.EQ.11'):
+                for op in ('.EQN.', '.NEN.', '.LT.', '.GT.', '.LE.', '.GE.'):
+                    for val in ('1', '2'):
+                        for order in (0, 1):
+                            fl = [first, f'A{op}{val}']
+                            if order:
+                                fl.reverse()
+                            yield {'fam': 'filter', 'text': text, 'colnames': ['A', 'B'],
+                                   'ignore': fl}
+
+
+def _read_work(chunk):
+    warnings.filterwarnings('ignore')
+    _single_thread()
+    out = []
+    for idx, spec in chunk:
+        try:
+            r = _read_case(spec)
+        except Exception as e:  # noqa: BLE001
+            import traceback
+
+            r = [('CHECKER', 'checker error', traceback.format_exc()[-800:] + repr(e))]
+        out.append((idx, r))
+    return out
+
+
+# ---- convert_fortran_number ------------------------------------------------------------
+
+_NUM_ALPHABET = '0123456789+-.dDeE'
+
+
+def _number_case(s):
+    from pharmpy.model.external.nonmem.dataset import convert_fortran_number
+
+    fid = f'{DATASET_PY}:convert_fortran_number'
+    try:
+        exp = ('ok', _ref_fortran(s))
+    except _RefError:
+        exp = ('error', None)
+    try:
+        got = ('ok', convert_fortran_number(s))
+    except ValueError:
+        got = ('error', None)
+    except Exception as e:  # noqa: BLE001
+        return [(fid, f'no internal error (only ValueError) [{type(e).__name__}]',
+                 f'convert_fortran_number({s!r}) raised {type(e).__name__}: {e}')]
+    if exp[0] == 'error' and got[0] == 'ok':
+        return [(fid, 'a string that is not a number in one of the documented forms is rejected '
+                 'with ValueError', f'convert_fortran_number({s!r}) == {got[1]!r}')]
+    if exp[0] == 'ok' and got[0] == 'error':
+        return [(fid, 'every documented number form (decimal, E/D exponent, short form a+b / a-b, '
+                 'lone sign) is converted', f'convert_fortran_number({s!r}) raised ValueError, '
+                 f'expected {exp[1]!r}')]
+    if exp[0] == 'ok':
+        try:
+            same = float(got[1]) == exp[1]
+        except (TypeError, ValueError):
+            same = False
+        if not same:
+            return [(fid, 'the converted value is mantissa * 10**exponent',
+                     f'convert_fortran_number({s!r}) == {got[1]!r} expected {exp[1]!r}')]
+    return []
+
+
+def _number_work(prefixes_and_len):
+    warnings.filterwarnings('ignore')
+    prefixes, maxlen = prefixes_and_len
+    n = nontriv = 0
+    best = {}
+    for prefix in prefixes:
+        for total in range(len(prefix), maxlen + 1):
+            if total == 0:
+                continue
+            for rest in itertools.product(_NUM_ALPHABET, repeat=total - len(prefix)):
+                s = prefix + ''.join(rest)
+                n += 1
+                if _REF_NUM.fullmatch(s) or s in '+-':
+                    nontriv += 1
+                for fid, clause, detail in _number_case(s):
+                    key = (fid, clause)
+                    rank = (len(s), s)
+                    if key not in best or rank < best[key][0]:
+                        best[key] = (rank, s, detail)
+    return n, nontriv, best
+
+
+# ---- reading through a model ($INPUT / $DATA) and the write/read cycle ---------------------
+
+_MODEL_CODE = """$PROBLEM
+$INPUT {input}
+$DATA {data}
+$PRED
+Y=THETA(1)+ETA(1)+EPS(1)
+$THETA 1
+$OMEGA 0.1
+$SIGMA 0.1
+$ESTIMATION METHOD=1
+"""
+
+_INPUTS = [
+    # $INPUT text, column names the reader must use, drop flags
+    ('ID DV WT', ['ID', 'DV', 'WT'], [False, False, False]),
+    ('ID DV', ['ID', 'DV'], [False, False]),
+    ('ID DV WT AGE', ['ID', 'DV', 'WT', 'AGE'], [False] * 4),
+    ('ID DV=DROP WT', ['ID', 'DV', 'WT'], [False, True, False]),
+    ('ID DROP=DV WT', ['ID', 'DV', 'WT'], [False, True, False]),
+    ('ID DV=SKIP WT', ['ID', 'DV', 'WT'], [False, True, False]),
+    ('ID DROP WT', ['ID', None, 'WT'], [False, True, False]),
+    ('ID SKIP WT', ['ID', None, 'WT'], [False, True, False]),
+    ('ID DV=CONC WT', ['ID', 'CONC', 'WT'], [False, False, False]),
+    ('ID CONC=DV WT', ['ID', 'CONC', 'WT'], [False, False, False]),
+]
+
+_DATA_OPTS = [
+    # $DATA options, reader arguments
+    ('', {}),
+    ('IGNORE=@', {'ignore_character': '@'}),
+    ('IGNORE=I', {'ignore_character': 'I'}),
+    ('NULL=7', {'null_value': '7'}),
+    ('IGNORE=@ IGNORE=(WT.EQN.3)', {'ignore_character': '@', 'ignore': ['WT.EQN.3']}),
+    ('IGNORE=(ID.EQ.2)', {'ignore': ['ID.EQ.2']}),
+    ('IGNORE=(ID.EQ.2) IGNORE=(WT.GT.5)', {'ignore': ['ID.EQ.2', 'WT.GT.5']}),
+    ('IGNORE=(ID.EQ.2,WT.GT.5)', {'ignore': ['ID.EQ.2', 'WT.GT.5']}),
+    ('ACCEPT=(ID.NE.2)', {'accept': ['ID.NE.2']}),
+    ('ACCEPT=(WT.GE.3)', {'accept': ['WT.GE.3']}),
+]
+
+_DATA_TEXTS = [
+    '1,1.5,3\n2,2.5,6\n',
+    '1 1.5 3\n2 . 6\n3,4D0,9\n',
+    '#c\n1,,3\n2,2.5\n',
+    '1\t1-1\t3\t8\n2\t2.5\t6\t9\n',
+]
+
+
+def _enumerate_model_reads(tier):
+    for text in _DATA_TEXTS:
+        for inp in range(len(_INPUTS)):
+            for opt in range(len(_DATA_OPTS)):
+                yield {'fam': 'model', 'text': text, 'input': inp, 'opt': opt}
+    # header line with IGNORE=@
+    for inp in range(len(_INPUTS)):
+        yield {'fam': 'model', 'text': 'ID,DV,WT\n1,1.5,3\n2,2.5,6\n', 'input': inp, 'opt': 1}
+
+
+def _model_read_case(spec, tmpdir):
+    from pharmpy.model import DatasetError
+    from pharmpy.modeling import read_model
+
+    inp, colnames, drop = _INPUTS[spec['input']]
+    opts, rargs = _DATA_OPTS[spec['opt']]
+    fid = f'{PARSING_PY}:parse_dataset'
+    clause = ('the dataset of a model is what the documented NM-TRAN rules give for its $INPUT '
+              '(DROP/SKIP, synonyms, fewer or more columns) and $DATA (IGNORE=c, NULL, '
+              'IGNORE/ACCEPT) records')
+    # filters are written with the names of $INPUT; the reference uses positions
+    refnames = ['ID', 'DV', 'WT', 'AGE'][:len(colnames)]
+    rspec = {'text': spec['text'], 'colnames': refnames, 'drop': drop}
+    rspec.update(rargs)
+    if any(f.split('.')[0] not in refnames for f in (rargs.get('ignore') or [])
+           + (rargs.get('accept') or [])):
+        return None  # the filter column is not in this $INPUT
+    ref = _ref_read(rspec)
+    if ref[0] == 'skip':
+        return None
+    d = tempfile.mkdtemp(dir=tmpdir)
+    with open(os.path.join(d, 'data.csv'), 'w') as fh:
+        fh.write(spec['text'])
+    code = _MODEL_CODE.format(input=inp, data=('data.csv ' + opts).strip())
+    path = os.path.join(d, 'run1.mod')
+    with open(path, 'w') as fh:
+        fh.write(code)
+    shown = f'$INPUT {inp} / $DATA data.csv {opts} / file {spec["text"]!r}'
+    try:
+        df = read_model(path).dataset
+    except Exception as e:  # noqa: BLE001
+        if ref[0] == 'error' and isinstance(e, DatasetError):
+            return []
+        return [(fid, f'no internal error (only DatasetError) [{type(e).__name__}]',
+                 f'{type(e).__name__}: {e}; reference {ref} for {shown}')]
+    if ref[0] == 'error':
+        return [(fid, clause + ' (documented error is raised)',
+                 f'read {df.values.tolist()}; documented outcome is an error ({ref[1]}) for '
+                 f'{shown}')]
+    rows = ref[1]
+    if len(df) != len(rows):
+        return [(fid, clause, f'{len(df)} rows {df.values.tolist()} expected {rows} for {shown}')]
+    for k, (name, dropped) in enumerate(zip(colnames, drop)):
+        if dropped:
+            continue  # a dropped column may be absent or unparsed
+        if name not in df.columns:
+            return [(fid, clause, f'column {name} missing in {list(df.columns)} for {shown}')]
+        try:
+            got = [float(x) for x in df[name].tolist()]
+        except (TypeError, ValueError):
+            got = df[name].tolist()
+        exp = [r[k] for r in rows]
+        if got != exp:
+            return [(fid, clause, f'column {name}: {got} expected {exp} for {shown}')]
+    extra = [c for c in df.columns if c not in [n for n in colnames if n is not None]
+             and not str(c).startswith('_DROP')]
+    if extra:
+        return [(fid, clause, f'unexpected columns {extra} for {shown}')]
+    return []
+
+
+_RT_FLOATS = [0.0, 1.0, -1.5, 1.0 / 3.0, 1e-10, 123456.789, -1.2345678901234567e-100, 1e300,
+              float('nan')]
+_RT_INTS = [0, 7, -5, -99, 100000]
+
+
+def _enumerate_roundtrip(tier):
+    for a in range(len(_RT_FLOATS)):
+        for b in range(len(_RT_FLOATS)):
+            yield {'fam': 'roundtrip', 'kind': 'float', 'a': a, 'b': b}
+    for a in range(len(_RT_INTS)):
+        for b in range(len(_RT_INTS)):
+            yield {'fam': 'roundtrip', 'kind': 'int', 'a': a, 'b': b}
+    if tier == 'thorough':
+        for a in range(len(_RT_FLOATS)):
+            for b in range(len(_RT_INTS)):
+                yield {'fam': 'roundtrip', 'kind': 'both', 'a': a, 'b': b}
+
+
+_RT_BASE = []
+
+
+def _roundtrip_base():
+    if not _RT_BASE:
+        from pharmpy.model import Model
+
+        code = _MODEL_CODE.format(input='ID TIME DV', data='none.csv IGNORE=@')
+        _RT_BASE.append(Model.parse_model_from_string(code))
+    return _RT_BASE[0]
+
+
+def _roundtrip_df(spec):
+    data = {'ID': [1, 2], 'TIME': [0.0, 1.5], 'DV': [0.5, 2.0]}
+    if spec['kind'] == 'float':
+        data['DV'] = [_RT_FLOATS[spec['a']], _RT_FLOATS[spec['b']]]
+        data['WT'] = [70.5, 80.25]
+    elif spec['kind'] == 'int':
+        data['NUM'] = [_RT_INTS[spec['a']], _RT_INTS[spec['b']]]
+    else:
+        data['WT'] = [_RT_FLOATS[spec['a']], 1.0]
+        data['NUM'] = [3, _RT_INTS[spec['b']]]
+    return pd.DataFrame(data)
+
+
+def _roundtrip_case(spec, tmpdir):
+    from pharmpy.modeling import read_model, write_csv, write_model
+
+    fid = f'{WRITE_CSV_PY}:write_csv'
+    clause = ('a dataset written for a model and read back through the generated code is equal '
+              'to the model\'s dataset')
+    df = _roundtrip_df(spec)
+    snap = df.copy(deep=True)
+    d = tempfile.mkdtemp(dir=tmpdir)
+    shown = f'dataset {df.to_dict(orient="list")}'
+    try:
+        model = _roundtrip_base().replace(dataset=df)
+        model = write_csv(model, path=os.path.join(d, 'data.csv'), force=True)
+        model = write_model(model, os.path.join(d, 'run1.mod'), force=True)
+        back = read_model(os.path.join(d, 'run1.mod')).dataset
+    except Exception as e:  # noqa: BLE001
+        return [(fid, f'no internal error [{type(e).__name__}]',
+                 f'{type(e).__name__}: {e} for {shown}')]
+    fails = []
+    if not _same_df(df, snap):
+        fails.append((fid, 'the dataset of the model is not modified', shown))
+    ok = isinstance(back, pd.DataFrame) and list(back.columns) == list(df.columns)
+    ok = ok and len(back) == len(df)
+    if ok:
+        for c in df.columns:
+            try:
+                x = np.asarray(back[c].to_numpy(), dtype=float)
+            except (TypeError, ValueError):
+                ok = False
+                break
+            y = np.asarray(df[c].to_numpy(), dtype=float)
+            if not np.array_equal(x, y, equal_nan=True):
+                ok = False
+    if not ok:
+        got = back.to_dict(orient='list') if isinstance(back, pd.DataFrame) else repr(back)
+        with open(os.path.join(d, 'data.csv')) as fh:
+            written = fh.read()
+        fails.append((fid, clause, f'read back {got} for {shown}; file written: {written!r}'))
+    return fails
+
+
+def _file_work(chunk):
+    warnings.filterwarnings('ignore')
+    _single_thread()
+    tmpdir = tempfile.mkdtemp(prefix='b_data_')
+    out = []
+    try:
+        for idx, spec in chunk:
+            try:
+                if spec['fam'] == 'model':
+                    r = _model_read_case(spec, tmpdir)
+                else:
+                    r = _roundtrip_case(spec, tmpdir)
+            except Exception as e:  # noqa: BLE001
+                import traceback
+
+                r = [('CHECKER', 'checker error', traceback.format_exc()[-800:] + repr(e))]
+            out.append((idx, r))
+    finally:
+        shutil.rmtree(tmpdir, ignore_errors=True)
+    return out
+
+
+def _spec_size(spec):
+    if 'text' in spec:
+        return (len(spec['text']), len(spec.get('colnames', [])),
+                len(spec.get('ignore') or []) + len(spec.get('accept') or []))
+    return (0, 0, 0)
+
+
+def bounded_dataset_reading(tier='quick'):
+    import pharmpy.modeling  # noqa: F401
+    from pharmpy.model.external.nonmem import dataset as _ds  # noqa: F401
+
+    _roundtrip_base()
+    maxlen = 5 if tier == 'thorough' else 4
+    best = {}
+    cases = nontriv = 0
+
+    def record(fid, clause, rank, case, detail):
+        key = (fid, clause)
+        if key not in best or rank < best[key][0]:
+            best[key] = (rank, case, detail)
+
+    # A: convert_fortran_number
+    prefixes = [a + b for a in _NUM_ALPHABET for b in _NUM_ALPHABET]
+    jobs = [([p], maxlen) for p in prefixes] + [(list(_NUM_ALPHABET), 1)]
+    ctx = multiprocessing.get_context('fork')
+    with ctx.Pool(NPROC) as pool:
+        for n, nt, b in pool.map(_number_work, jobs, chunksize=8):
+            cases += n
+            nontriv += nt
+            for (fid, clause), (rank, s, detail) in b.items():
+                record(fid, clause, rank, {'fam': 'number', 's': s}, detail)
+    # B: read_nonmem_dataset
+    specs = list(_enumerate_reading(tier))
+    for chunk in _run_pool(_read_work, list(enumerate(specs)), 400):
+        for idx, r in chunk:
+            if r is None:
+                continue
+            cases += 1
+            nontriv += 1
+            for fid, clause, detail in r:
+                record(fid, clause, _spec_size(specs[idx]) + (idx,), specs[idx], detail)
+    # C, D: through a model
+    fspecs = list(_enumerate_model_reads(tier)) + list(_enumerate_roundtrip(tier))
+    for chunk in _run_pool(_file_work, list(enumerate(fspecs)), 12):
+        for idx, r in chunk:
+            if r is None:
+                continue
+            cases += 1
+            nontriv += 1
+            for fid, clause, detail in r:
+                record(fid, clause, _spec_size(fspecs[idx]) + (idx,), fspecs[idx], detail)
+    fails = []
+    for (fid, clause), (rank, case, detail) in sorted(best.items()):
+        fails.append({'fid': fid, 'clause': clause, 'detail': str(detail)[:700],
+                      'case': {'spec': case, 'fid': fid, 'clause': clause},
+                      'replay_fn': 'bounded_dataset_reading_replay'})
+    bound = (
+        'convert_fortran_number on every string of length <=%d over "0123456789+-.dDeE"; '
+        'read_nonmem_dataset on every one-row file of <=3 items (integer, decimal, ".", empty) with '
+        'each of 8 separator forms per gap (comma, space, TAB, space+comma, comma+space, '
+        'space+comma+space, two spaces, TAB+space), optional leading/trailing space, 2 or 3 $INPUT '
+        'columns, NULL value default/7/-; every two-row file with rows of 1-3 items (also of '
+        'different length) x 1-3 columns; every file of <=3 lines from 8 comment/header/blank/data '
+        'lines x IGNORE=c in {default,#,I,@} x final newline; every <=3 column row over 5 items '
+        '(number, text, 25 and 24 characters, ".") x every DROP pattern; every IGNORE/ACCEPT '
+        'operator (15 spellings) x 4 values x 25 two-row files and two-filter sequences; '
+        '%d $INPUT forms x %d $DATA option sets x %d files read through a model; write_csv + '
+        'write_model + read_model on 2-row datasets over %d float and %d integer values'
+        % (maxlen, len(_INPUTS), len(_DATA_OPTS), len(_DATA_TEXTS) + 1, len(_RT_FLOATS),
+           len(_RT_INTS))
+    )
+    samples = [repr(specs[0])[:160], repr(specs[len(specs) // 2])[:160], repr(fspecs[-1])[:160]]
+    return {'cases': cases, 'nontrivial': nontriv, 'bound': bound, 'samples': samples,
+            'fails': fails}
+
+
+def bounded_dataset_reading_replay(rp):
+    c = rp['case']
+    spec = c['spec']
+    if spec['fam'] == 'number':
+        r = _number_case(spec['s'])
+    elif spec['fam'] in ('model', 'roundtrip'):
+        tmpdir = tempfile.mkdtemp(prefix='b_data_')
+        try:
+            if spec['fam'] == 'model':
+                r = _model_read_case(spec, tmpdir)
+            else:
+                r = _roundtrip_case(spec, tmpdir)
+        finally:
+            shutil.rmtree(tmpdir, ignore_errors=True)
+    else:
+        r = _read_case(spec)
+    for fid, clause, detail in r or []:
+        if fid == c['fid'] and clause == c['clause']:
+            return (False, detail)
+    return (True, 'ok')
